@@ -85,6 +85,7 @@ def run_kani(units, per_harness_timeout=300, jobs=16):
     """Build + verify.  Returns dict harness -> result."""
     if not units:
         return {}
+    jobs = int(os.environ.get("SEED_VERIF_JOBS", jobs))      # development only: several checks side by side
     sync_work(injections_for(units))
     out_json = os.path.join(SCRATCH, "kani-out.json")
     if os.path.exists(out_json):
